@@ -221,6 +221,78 @@ def gabor_truncation_support(ctx, R):
             ctx.error(R, "cannot decide the angular support the Gabor truncation recomputes (%s): %s" % (mode, r.get("reason", "")[:120]))
 
 
+def gammatone_freq_support(ctx, R):
+    """The advertised frequency support of a gammatone filter is where |H(w)| = c (n-1)! / (alpha^2 + (w - xi)^2)^(n/2) falls to
+    the threshold eps:  (w - xi)^2 = (c (n-1)! / eps)^(2/n) - alpha^2,  with c the constant the constructor itself computed for
+    the normalisation mode (unit peak gain or unit L2 norm).  Decided for both modes on the forward-substituted half-width."""
+    prog = ctx.prog
+    LA, N, EPS = S.sym("LA"), S.sym("order"), S.sym("EPS")
+    what = "gammatone frequency support: half-width^2 = (c (n-1)! / eps)^(2/n) - alpha^2 in both normalisation modes"
+    for mode in (True, False):
+        mname = "unit L2 norm" if mode else "unit peak gain"
+        try:
+            c, f, ev = ctor_eval(prog, "ComplexGammatoneFilterBank", {"scale_l2_norm": mode})
+        except Exception as e:
+            ctx.error(R, "cannot decide %s (%s): %r" % (what, mname, e))
+            continue
+        # the half-width: what is added to / subtracted from the centre in the stored support pair
+        app = [x for x in astq.func_calls(f) if astq.attr_call(x, "append") and astq.text(x.func.value) == "self._supports_ang" and x.args]
+        st = [astq.enclosing_stmt(astq.parents(f), a) for a in app]
+        st = [s_ for s_ in st if ev.reached(s_)]
+        if len(st) != 1:
+            ctx.error(R, "cannot decide %s (%s): the store of the angular support was not found" % (what, mname))
+            continue
+        try:
+            pair = ev.eval_at(st[0], app[0].args[0])
+            la = ev.eval_at(st[0], ast.parse("log_alpha", mode="eval").body)
+            lc = ev.eval_at(st[0], ast.parse("log_c", mode="eval").body)
+        except Exception as e:
+            ctx.error(R, "cannot decide %s (%s): %r" % (what, mname, e))
+            continue
+        if not (is_call_(pair, "tuple") and len(pair.args) == 3):
+            ctx.error(R, "cannot decide %s (%s): the stored support is %s" % (what, mname, S.show(pair)[:100]))
+            continue
+        def terms(e):
+            return [y for a_ in e.args for y in terms(a_)] if (isinstance(e, S.E) and e.op == "add") else [e]
+        t_lo, t_hi = terms(pair.args[1]), terms(pair.args[2])
+        ds = [t for t in t_hi if S.neg(t) in t_lo]
+        if len(ds) != 1:
+            ctx.error(R, "cannot decide %s (%s): the stored support is not centre -/+ half-width: %s" % (what, mname, S.show(pair)[:120]))
+            continue
+        half = ds[0]
+
+        def norm(e):
+            e = S.subst(e, {la: LA})
+            from .. import scenario as SC
+            return SC.transform(e, lambda x: EPS if (x.op == "sym" and x.args[0].endswith("EFFECTIVE_SUPPORT_THRESHOLD")) else None)
+        got = norm(half)
+        lcn = norm(lc)
+        want = S.power(S.sub(S.call("exp", S.mul(S.truediv(S.lift(2), N), S.sub(S.add(lcn, S.call("log", S.call("factorial", S.sub(N, S.ONE)))), S.call("log", EPS)))),
+                             S.call("exp", S.mul(S.lift(2), LA))), S.lift(Fraction(1, 2)))
+        free = (set(S.symbols(got)) | set(S.symbols(want))) - {"LA", "order", "EPS", "pi"}
+        if free or S.has_unknown(got):
+            ctx.error(R, "cannot decide %s (%s): the half-width depends on %s" % (what, mname, sorted(free) or S.show(got)[:100]))
+            continue
+        dom = {"LA": [Fraction(-3), Fraction(-5, 2), Fraction(-4)], "order": [Fraction(3), Fraction(4), Fraction(6)], "EPS": [Fraction(1, 2000), Fraction(1, 100)]}
+        try:
+            r = S.compare(got, want, domain=dom)
+        except Exception as e:
+            ctx.error(R, "cannot decide %s (%s): %r" % (what, mname, e))
+            continue
+        if r["verdict"] == "equal":
+            ctx.ok(R, f.loc(st[0]), what, mname)
+        elif r["verdict"] == "differ":
+            ctx.bad(R, f, st[0], "gammatone with %s: the advertised half-width of the frequency support is %s, but |H| falls to the threshold at %s (e.g. at %s: %s vs %s): "
+                    "bins outside the truncated window still exceed the threshold" % (mname, S.show(got)[:140], S.show(want)[:140], r.get("witness"), r["values"][0], r["values"][1]),
+                    what, robust=True)
+        else:
+            ctx.error(R, "cannot decide %s (%s): %s" % (what, mname, r.get("reason", "")[:120]))
+
+
+def is_call_(e, name):
+    return isinstance(e, S.E) and e.op == "call" and e.args[0] == name
+
+
 def gabor_supports(ctx, R, which=("freq", "time")):
     """The advertised Gabor supports are where the Gaussian falls to the threshold eps:
     |H(w)| = C_f exp(-sigma^2 (w - xi)^2 / 2) = eps  <=>  |w - xi| = sqrt(2 (log C_f - log eps)) / sigma,
